@@ -7,6 +7,13 @@ import QV.Proofs.WriterAbsStep
 namespace QV.Writer
 open QV QV.Wire QV.Spec QV.ServerSafety
 
+/-- the remaining argument types of the Rust API that `Op.Typed` does not list: the EDNS payload size
+    and the TSIG `fudge` / original ID / error are `u16` -/
+def ApiBounds : Op → Prop
+  | .setEdns p => p < 65536
+  | .setTsig _ rr => rr.fudge < 65536 ∧ rr.originalId < 65536 ∧ rr.error < 65536
+  | _ => True
+
 /-- the TSIG configuration as the specification records it -/
 def toATsig (ts : Tsig) : Message.ATsig :=
   ⟨(match ts.mode with
@@ -23,13 +30,16 @@ def toATsig (ts : Tsig) : Message.ATsig :=
 structure AbsCfg (s : State) (a : Message.AState) : Prop where
   edns : a.edns = s.edns.map fun e => (e.payload, e.upper)
   tsig : a.tsig = s.tsig.map toATsig
+  /-- the stored values are those of the API's types -/
+  eb : ∀ e, s.edns = some e → e.payload < 65536 ∧ e.upper < 256
+  tb : ∀ ts, s.tsig = some ts → ts.rr.fudge < 65536 ∧ ts.rr.originalId < 65536 ∧ ts.rr.error < 65536
 
 theorem absCfg_same {s s' : State} {a : Message.AState} (h : AbsCfg s a) (e : Same s s') : AbsCfg s' a :=
-  ⟨by rw [e.edns]; exact h.edns, by rw [e.tsig]; exact h.tsig⟩
+  ⟨by rw [e.edns]; exact h.edns, by rw [e.tsig]; exact h.tsig, by rw [e.edns]; exact h.eb, by rw [e.tsig]; exact h.tb⟩
 
 theorem absCfg_of {s s' : State} {a a' : Message.AState} (h : AbsCfg s a) (he : s'.edns = s.edns)
     (ht : s'.tsig = s.tsig) (ae : a'.edns = a.edns) (at' : a'.tsig = a.tsig) : AbsCfg s' a' :=
-  ⟨by rw [ae, he]; exact h.edns, by rw [at', ht]; exact h.tsig⟩
+  ⟨by rw [ae, he]; exact h.edns, by rw [at', ht]; exact h.tsig, by rw [he]; exact h.eb, by rw [ht]; exact h.tb⟩
 
 theorem write_cfg (pos : Nat) (d : List UInt8) (s : State) :
     (write pos d s).2.edns = s.edns ∧ (write pos d s).2.tsig = s.tsig := by
@@ -65,7 +75,7 @@ theorem template_cfg {s s' : State} {t : Template} (buf : Bytes) (ts : Option Ts
 
 /-- the EDNS / TSIG configuration the specification records is the writer's, call after call -/
 theorem cfg_step (ss : Session) (op : Op) (a a' : Message.AState) (d : Message.Decoded) (hI : I ss.w)
-    (hC : AbsCfg ss.w a) (hok : (step ss op).1 = .ok ())
+    (hC : AbsCfg ss.w a) (hb : ApiBounds op) (hok : (step ss op).1 = .ok ())
     (habs : Message.absOk a d (Driver.toSpecOp op) = .ok a') : AbsCfg (step ss op).2.w a' := by
   have lw : ∀ (f : M Unit), (step ss op).2.w = (liftW ss f).2.w →
       ((f ss.w).2.edns = ss.w.edns ∧ (f ss.w).2.tsig = ss.w.tsig) → a'.edns = a.edns → a'.tsig = a.tsig →
@@ -121,13 +131,24 @@ theorem cfg_step (ss : Session) (op : Op) (a a' : Message.AState) (d : Message.D
       | panic => cases hok'
       | ok u =>
         simp only [M.modify_apply]
-        refine ⟨?_, ?_⟩
+        refine ⟨?_, ?_, ?_, ?_⟩
         · show a.edns.map _ = _
           rw [hC.edns, ← h1.1]
           cases he : s1.edns <;> simp [he]
         · show a.tsig = _
           rw [hC.tsig, ← h1.2]
           cases he : s1.edns <;> simp [he]
+        · intro e he'
+          cases he : s1.edns with
+          | none => simp only [he] at he'; first | cases he' | (rw [he] at he'; cases he')
+          | some e0 =>
+            simp only [he] at he'
+            simp only [Option.some.injEq] at he'
+            subst he'
+            exact ⟨(hC.eb e0 (by rw [← h1.1]; exact he)).1, by show 0 < 256; omega⟩
+        · intro ts hts
+          have : s1.tsig = some ts := by cases he : s1.edns <;> simp only [he] at hts <;> exact hts
+          exact hC.tb ts (by rw [← h1.2]; exact this)
   | setExtendedRcode v =>
     have hok' : (setExtendedRcode v ss.w).1 = .ok () := by rw [← liftW_fst]; exact hok
     show AbsCfg (liftW ss (setExtendedRcode v)).2.w _
@@ -162,9 +183,14 @@ theorem cfg_step (ss : Session) (op : Op) (a a' : Message.AState) (d : Message.D
           | panic => cases hok'
           | ok u =>
             simp only [M.modify_apply]
-            refine ⟨?_, by show a.tsig = _; rw [hC.tsig, ← h1.2]⟩
-            show some (ed.payload, v / 16) = some (ed.payload, v / 16 % 256)
-            rw [Nat.mod_eq_of_lt (by omega)]
+            refine ⟨?_, by show a.tsig = _; rw [hC.tsig, ← h1.2], ?_, by
+              intro ts hts; exact hC.tb ts (by rw [← h1.2]; exact hts)⟩
+            · show some (ed.payload, v / 16) = some (ed.payload, v / 16 % 256)
+              rw [Nat.mod_eq_of_lt (by omega)]
+            · intro e he'
+              simp only [Option.some.injEq] at he'
+              subst he'
+              exact ⟨(hC.eb ed he).1, Nat.mod_lt _ (by omega)⟩
   | addQuestion n t c =>
     have hok' : (addQuestion n t c ss.w).1 = .ok () := by rw [← liftW_fst]; exact hok
     show AbsCfg (liftW ss (addQuestion n t c)).2.w _
@@ -237,7 +263,8 @@ theorem cfg_step (ss : Session) (op : Op) (a a' : Message.AState) (d : Message.D
           split at hok'
           · cases hok'
           · rename_i h3; rw [if_neg h3]
-            exact ⟨rfl, hC.tsig⟩
+            exact ⟨rfl, hC.tsig, fun e he' => by
+              simp only [Option.some.injEq] at he'; subst he'; exact ⟨hb, by show 0 < 256; omega⟩, hC.tb⟩
   | setTsig m rr =>
     have hok' : (setTsig m rr ss.w).1 = .ok () := by rw [← liftW_fst]; exact hok
     show AbsCfg (liftW ss (setTsig m rr)).2.w _
@@ -256,7 +283,8 @@ theorem cfg_step (ss : Session) (op : Op) (a a' : Message.AState) (d : Message.D
           split at hok'
           · cases hok'
           · rename_i h3; rw [if_neg h3]
-            exact ⟨hC.edns, rfl⟩
+            exact ⟨hC.edns, rfl, hC.eb, fun ts hts => by
+              simp only [Option.some.injEq] at hts; subst hts; exact hb⟩
   | updateTimeSigned t =>
     have hok' : (updateTimeSigned t ss.w).1 = .ok () := by rw [← liftW_fst]; exact hok
     show AbsCfg (liftW ss (updateTimeSigned t)).2.w _
@@ -272,7 +300,8 @@ theorem cfg_step (ss : Session) (op : Op) (a a' : Message.AState) (d : Message.D
       rw [hat] at habs
       simp only [Except.ok.injEq] at habs; subst habs
       simp only []
-      exact ⟨hC.edns, rfl⟩
+      exact ⟨hC.edns, rfl, hC.eb, fun ts' hts' => by
+        simp only [Option.some.injEq] at hts'; subst hts'; exact hC.tb ts hts⟩
   | template n fill =>
     obtain ⟨t, s', ht, hm, hw⟩ := retemplate_ok hok
     have hw' : (step ss (.template n fill)).2.w = s' := hw
@@ -306,9 +335,13 @@ theorem cfg_step (ss : Session) (op : Op) (a a' : Message.AState) (d : Message.D
           AbsCfg s' a' := by
         intro al pm k hx heq
         obtain ⟨c1, c2⟩ := template_cfg _ _ hI ht hx
-        refine ⟨by rw [ha'.1, c1]; exact hC.edns, ?_⟩
-        rw [ha'.2, c2, hC.tsig, hs0]
-        simp only [Option.map_some, heq]
+        refine ⟨by rw [ha'.1, c1]; exact hC.edns, ?_, by rw [c1]; exact hC.eb, ?_⟩
+        · rw [ha'.2, c2, hC.tsig, hs0]
+          simp only [Option.map_some, heq]
+        · intro ts hts
+          rw [c2] at hts
+          simp only [Option.some.injEq] at hts; subst hts
+          exact hC.tb ts0 hs0
       cases hmode : ts0.mode with
       | request al k => rw [hmode] at hm; exact fin _ _ _ hm (by simp only [toATsig, hmode])
       | response al x k => rw [hmode] at hm; exact fin _ _ _ hm (by simp only [toATsig, hmode])
